@@ -31,7 +31,7 @@ for i in range(72):
 PY
 jobs=8
 t0=$(date +%s)
-RUSTFLAGS="--cfg rustfft_verif" cargo +nightly fuzz run --fuzz-dir fuzz "$target" "$corpus" -- -runs="$runs" -seed="$seed" -len_control=0 -max_len=64 \
+RUSTFLAGS="--cfg rustfft_verif" cargo +nightly fuzz run --fuzz-dir fuzz "$target" "$corpus" -- -runs="$runs" -max_total_time="${VF_FUZZ_SECS:-900}" -seed="$seed" -len_control=0 -max_len=64 \
    -jobs=$jobs -workers=$jobs -artifact_prefix="$art/" >"work/fuzz-run-$prop.log" 2>&1
 ncrash=0
 for f in "$art"/crash-* "$art"/oom-* "$art"/timeout-*; do
